@@ -310,8 +310,8 @@ Definition spec_C05x (sc : escen) (ob : eobs) : bool := spec_C05 sc ob && fw_cla
    for ANY kind of node - except for a batch node that is itself the root of the run (a batch node
    run directly looks at the context only per item).  A batch node that is a step of a flow is not
    started: the flow looks at the context before every step.  This clause judges every scenario,
-   also those the lifecycle monitor does not (tables with batch or partial nodes).  It is not
-   proved of the model; every case file evaluates it on the model's own observation too. *)
+   also those the lifecycle monitor does not (tables with batch or partial nodes).  Proved of the
+   model's observation of every scenario in Proofs/LatePrep.v. *)
 Fixpoint late_prep_ok (okn : nid -> bool) (canc : bool) (tr : list event) : bool :=
   match tr with
   | [] => true
